@@ -448,7 +448,7 @@ func tokIndex(ts []token.Token, t token.Token) int {
 }
 
 func init() {
-	register("parse", func(args string) string {
+	register("parsetree", func(args string) string {
 		f := strings.SplitN(args, " ", 3)
 		if len(f) < 2 {
 			return "badreq"
